@@ -758,9 +758,11 @@ class CE:
             b = Mat(b)
         if isinstance(b, RowView):
             b = Mat(list(b.row()), 1)
+        if isinstance(op, (ast.Is, ast.IsNot)) and (isinstance(a, Mat) or isinstance(b, Mat)):
+            return (a is b) == isinstance(op, ast.Is)        # identity of the array objects
         if isinstance(a, Mat) or isinstance(b, Mat):
             fn = CMPOPS.get(type(op))
-            if fn is None or isinstance(op, (ast.Is, ast.IsNot)):
+            if fn is None:
                 raise Unsupported("matrix comparison")
             # elementwise, as numpy does: the result is a boolean array
             r = a.zipmap(b, lambda x, y: int(fn(x, y))) if isinstance(a, Mat) else b.map(lambda y: int(fn(a, y)))
